@@ -139,7 +139,7 @@ func c20Measure(s c20Shape, warm string, only string) (allocating []string, nops
 		{"Get", func() { _, _ = m.Get(stun.AttrSoftware); _, _ = m.Get(stun.AttrUsername); _, _ = m.Get(0x7777) }},
 		{"Contains", func() { _ = m.Contains(stun.AttrFingerprint); _ = m.Contains(0x7777) }},
 		{"ForEach", func() { _ = m.ForEach(stun.AttrUsername, feach); _ = m.ForEach(stun.AttrXORMappedAddress, feach) }},
-		{"Build(pointer setters)", func() { _ = bm.Build(setters...) }},
+		{"Build(pointer-setters)", func() { _ = bm.Build(setters...) }},
 	}
 	if present[stun.AttrUsername] {
 		ops = append(ops, op{"Username.GetFrom", func() { _ = uname.GetFrom(m) }})
